@@ -191,6 +191,15 @@ func init() {
 	intrinsics["(*internal/godebug.Setting).Value"] = func(fr *frame, args []value) value { return "" }
 	intrinsics["(*internal/godebug.Setting).IncNonDefault"] = func(fr *frame, args []value) value { return nil }
 	intrinsics["math/rand.Seed"] = func(fr *frame, args []value) value { return nil }
+	// the system random source is abstracted to a fixed stream (0x2a ...): callers that only need
+	// an unpredictable name (temp files, FindChartInRepoURL's cache name) behave the same
+	intrinsics["crypto/rand.Read"] = func(fr *frame, args []value) value {
+		b, _ := args[0].([]value)
+		for k := range b {
+			b[k] = uint8(0x2a)
+		}
+		return tuple{len(b), iface{}}
+	}
 	// the global pseudo-random source is abstracted to its first admissible answer
 	intrinsics["math/rand.Intn"] = func(fr *frame, args []value) value { return int(0) }
 	intrinsics["math/rand.Int31n"] = func(fr *frame, args []value) value { return int32(0) }
